@@ -284,7 +284,8 @@ def _arith(model, rep):
                 rep.ob('arith-identity', mod, call, 'PairState.%s: field %s' % (meth, f), False, 'field not set',
                        engine='linform')
                 continue
-            a = linform(_subst(got[f], sigma))
+            from ._common import resolve_local
+            a = linform(_subst(resolve_local(fn, got[f]), sigma))     # temporaries written out
             b = linform(ast.parse(exp, mode='eval').body)
             rep.ob('arith-identity', mod, got[f], 'PairState.%s: %s = %s' % (meth, f, unparse(got[f])), a == b,
                    '' if a == b else 'documented identity requires %s = %s, found %s' % (f, exp, lin_str(a)),
